@@ -172,7 +172,7 @@ type Peer struct {
 	Reader shipapi.ShipConnectionDataReaderInterface
 	ctr    uint64
 	Ents   []EntSpec
-	Gone bool // the connection was removed
+	Gone   bool // the connection was removed
 	// DiscoveryRef is the counter of the stack's initial discovery read.
 	DiscoveryRef *model.MsgCounterType
 }
